@@ -160,7 +160,7 @@ type Cfg struct {
 	Async    int    `json:"async"` // 0 off; 1 threshold 2 / timeout 2 steps; 2 threshold 100 / timeout 2 steps; 3 threshold 2 / timeout 1000 steps
 	Lower    bool   `json:"lower"` // sod.LowercaseNames
 	Ext      string `json:"ext"`
-	Index    int    `json:"index"`  // 0 struct tags; 1 nothing indexed (unique kept); 2 everything indexable indexed
+	Index    int    `json:"index"`  // 0 struct tags; 1 nothing indexed (unique kept); 2 everything indexable indexed; 3 tags + P declared unique (only) by a custom schema
 	MapRev   bool   `json:"maprev"` // reversed map iteration order
 }
 
@@ -202,12 +202,19 @@ func (c Cfg) Schema(of sod.Object) sod.Schema {
 				"float32", "float64", "string", "time.Time":
 				indexable = true
 			}
-			if c.Index == 1 {
+			switch {
+			case c.Index == 1:
 				// keep uniqueness (it is semantics), drop plain indexes
 				if !fd.Constraints.Unique {
 					fd.Constraints.Index = false
 				}
-			} else if indexable {
+			case c.Index == 3:
+				// a uniqueness constraint that exists only in the custom schema, not in the tags
+				// (P is not indexed by its tags: unique without index)
+				if p == "P" {
+					fd.Constraints.Unique = true
+				}
+			case indexable:
 				fd.Constraints.Index = true
 			}
 			fds[p] = fd
@@ -233,6 +240,7 @@ var cfgQuick = []Cfg{
 	{Async: 2, Lower: true, Ext: ".obj", Index: 2},
 	{Async: 3, Compress: true, Index: 1},
 	{Cache: true, Index: 2, MapRev: true},
+	{Index: 3, Ext: ".obj"},
 }
 
 func allCfgs() []Cfg {
